@@ -134,3 +134,13 @@ Definition ids_unique (es : list event) : Prop :=
   NoDup (live_ids es) /\ forall e, In e es -> eid e <> None.
 Definition spec_wf (s : sstate) : Prop :=
   NoDup (akeys s) /\ forall b m es, aget b s = Some (m, es) -> ids_unique es.
+
+(* Domain of the instants (DESIGN 2.2: 1970..2100, an event does not end before the epoch):
+   sqlite's unwindowed read is `endtime >= 0 AND starttime <= 2^63-1`. *)
+Definition ev_dom (e : event) : Prop := 0 <= ts e + dur e /\ ts e <= 2 ^ 63 - 1.
+Definition op_dom (o : op) : Prop :=
+  match o with
+  | InsertOne _ e | Replace _ _ e | ReplaceLast _ e => ev_dom e
+  | InsertMany _ es => forall e, In e es -> ev_dom e
+  | _ => True
+  end.
